@@ -186,6 +186,26 @@ fn pc_callback_trap() {
     kani::cover!(expect);
 }
 
+/// C16 (breakpoint stops): with a debug interface installed, every instruction address is put to
+/// it and the breakpoint event is raised exactly when it says so - next to, not instead of, the
+/// fast-load trap.
+#[kani::proof]
+#[kani::unwind(17)]
+#[kani::stub(libm::sqrt, sqrt_stub)]
+fn pc_callback_breakpoint() {
+    let machine = any_machine();
+    let mut c = ZXController::<VHost>::new(&settings(machine, false, false, false), VContext);
+    let answer: bool = kani::any();
+    c.debug_interface = Some(VDebug { answer, asked: None });
+    let addr: u16 = kani::any();
+    c.pc_callback(addr);
+    let trap = addr == 0x056B && (machine == ZXMachine::Sinclair48K);
+    kani::assert(c.debug_interface.as_ref().unwrap().asked == Some(addr), "C16: the debugger is asked about every instruction address");
+    kani::assert((c.verif_events_bits() & 2 != 0) == answer, "C16: breakpoint event raised iff the debugger says so");
+    kani::assert((c.verif_events_bits() & 1 != 0) == trap, "C10: fast-load trap independent of the debugger");
+    kani::cover!(answer && trap);
+}
+
 /// C06 (ROM contents): with the embedded ROM set 0x0000-0x3FFF reads the ROM image of the machine
 /// (128K: the image selected by bit 4 of the paging latch) and ignores writes. Machines, ROM
 /// select and a few addresses (first, last, two inner ones) are enumerated concretely - the copy
